@@ -47,8 +47,20 @@ def extract(repo):
     # ------------------------------------------------------------------ server/connection.rs
     sc = Source(repo + '/h3/src/server/connection.rs')
     body, spans['server accept'] = sc.fn_body('accept')
-    m = re.search(r'None\s*=>\s*\{\s*self\.shutdown\(\s*(\d+)\s*\)\s*\.await\s*\?\s*;\s*return\s+Ok\(None\)', body)
-    f['accept_none_shutdown'] = parse_int(m.group(1)) if m else None
+    m = re.search(r'None\s*=>\s*\{\s*(.*?)\s*return\s+Ok\(None\)\s*;\s*\}', body, re.S)
+    if not m:
+        raise AnchorLost('accept: None arm')
+    arm = re.sub(r'\s+', '', m.group(1))
+    k = re.fullmatch(r'self\.shutdown\((\d+)\)\.await\?;', arm)
+    g = re.fullmatch(r'ifself\.sent_closing\.is_none\(\)\{self\.shutdown\((\d+)\)\.await\?;\}', arm)
+    if k:
+        f['accept_none_shutdown'], f['accept_none_only_if_unsent'] = parse_int(k.group(1)), False
+    elif g:
+        f['accept_none_shutdown'], f['accept_none_only_if_unsent'] = parse_int(g.group(1)), True
+    elif arm == '':
+        f['accept_none_shutdown'], f['accept_none_only_if_unsent'] = None, False
+    else:
+        raise AnchorLost('accept: statements of the None arm: ' + arm)
     if not re.search(r'Some\(s\)\s*=>\s*FrameStream::new', body) or 'create_resolver_internal' not in body:
         raise AnchorLost('accept: Some arm')
 
@@ -92,18 +104,44 @@ def extract(repo):
         f['reject_cmp'] = 'CGe'
         f['reject_stop'] = f['reject_reset'] = None
         f['reject_none_if_idle'] = False
-    m = re.search(r'self\.last_accepted_stream\s*=\s*Some\((.*?)\)\s*;\s*(self\.ongoing_streams\.insert\(s\.send_id\(\)\)\s*;)?', body, re.S)
-    if not m:
+    # the accepting tail of the Ready arm: local lets are resolved, then WHAT is stored in last_accepted_stream
+    # and WHAT is inserted into ongoing_streams are classified (a rewrite that keeps both keeps the facts)
+    tail_at = body.rfind('continue;')
+    tail = body[tail_at:] if tail_at >= 0 else body
+    lets = {}
+    for lm in re.finditer(r'let\s+(\w+)\s*=\s*([^;]+);', tail):
+        lets[lm.group(1)] = re.sub(r'\s+', '', lm.group(2))
+
+    def arg_of(prefix):
+        i = tail.find(prefix)
+        if i < 0:
+            return None
+        j = i + len(prefix) - 1
+        from rustsrc import match_close
+        k2 = match_close(tail, j, '(', ')')
+        e = re.sub(r'\s+', '', tail[j + 1:k2])
+        e = re.sub(r',\)', ')', e).rstrip(',')
+        return lets.get(e, e)
+
+    MAXF = ('self.last_accepted_stream.map_or(s.send_id(),|last|last.max(s.send_id()))',
+            'self.last_accepted_stream.map_or(s.send_id(),|last|s.send_id().max(last))',
+            'self.last_accepted_stream.map_or(s.send_id(),|last|std::cmp::max(last,s.send_id()))')
+
+    def classify(e, where):
+        if e == 's.send_id()':
+            return 'stream'
+        if e in MAXF:
+            return 'max'
+        raise AnchorLost('poll_accept: %s is %s' % (where, e))
+    stored = arg_of('self.last_accepted_stream = Some(')
+    if stored is None:
         raise AnchorLost('poll_accept: last_accepted_stream assignment')
-    rhs = re.sub(r'\s+', '', m.group(1))
-    if rhs == 's.send_id()':
-        f['last_is_max'] = False
-    elif rhs == 'self.last_accepted_stream.map_or(s.send_id(),|last|last.max(s.send_id())),' or \
-            rhs == 'self.last_accepted_stream.map_or(s.send_id(),|last|last.max(s.send_id()))':
-        f['last_is_max'] = True
-    else:
-        raise AnchorLost('poll_accept: last_accepted_stream rhs ' + rhs)
-    f['ongoing_insert'] = bool(re.search(r'self\.ongoing_streams\.insert\(\s*s\.send_id\(\)\s*\)', body))
+    f['last_is_max'] = classify(stored, 'last_accepted_stream') == 'max'
+    ins = arg_of('self.ongoing_streams.insert(')
+    f['ongoing_insert'] = ins is not None
+    f['ongoing_insert_is_stream'] = True if ins is None else classify(ins, 'ongoing_streams.insert argument') == 'stream'
+    if not re.search(r'Poll::Ready\(Ok\(Some\(s\)\)\)', tail):
+        raise AnchorLost('poll_accept: Ready(Ok(Some(s)))')
 
     body, spans['poll_requests_completion'] = sc.fn_body('poll_requests_completion')
     f['completion_removes'] = bool(re.search(r'Poll::Ready\(Some\(id\)\)\s*=>\s*\{\s*self\.ongoing_streams\.remove\(&id\)\s*;', body))
@@ -227,6 +265,8 @@ def render(f):
          'Inductive cmpop := CLt | CLe | CGt | CGe | CEq | CNe.',
          '(* server::Connection::accept: the argument of the shutdown call in the None arm (None: no such call) *)',
          'Definition accept_none_shutdown : option N := %s.' % ('Some %d' % f['accept_none_shutdown'] if f['accept_none_shutdown'] is not None else 'None'),
+         '(* ... and whether that call is made only when no GOAWAY has been sent yet *)',
+         'Definition accept_none_only_if_unsent : bool := %s.' % b(f['accept_none_only_if_unsent']),
          '(* server::Connection::shutdown: max_id = last + k*max_requests + c  /  FIRST_REQUEST + k*max_requests + c *)',
          'Definition shutdown_some_adds_n : N := %d.' % f['some_adds_n'],
          'Definition shutdown_some_const : N := %d.' % f['some_const'],
@@ -244,6 +284,8 @@ def render(f):
          'Definition reject_none_if_idle : bool := %s.' % b(f['reject_none_if_idle']),
          'Definition last_accepted_is_max : bool := %s.' % b(f['last_is_max']),
          'Definition ongoing_insert : bool := %s.' % b(f['ongoing_insert']),
+         '(* what is inserted: the accepted stream id (true) or the value stored in last_accepted_stream (false) *)',
+         'Definition ongoing_insert_is_stream : bool := %s.' % b(f['ongoing_insert_is_stream']),
          'Definition completion_removes : bool := %s.' % b(f['completion_removes']),
          '(* RequestEnd life cycle *)',
          'Definition end_created_at_accept : bool := %s.' % b(f['end_created_at_accept']),
